@@ -559,7 +559,7 @@ def cmp_flt(op, a, b):
     return cmp_num(op, a, b)
 
 
-QUIRKS = ("sentinel", "undef_quantifier", "int_loop_body", "dbl_lt_undef", "range_wrap", "str_signed_cmp")
+QUIRKS = ("sentinel", "undef_quantifier", "int_loop_body", "dbl_lt_undef", "range_wrap")
 
 
 class Eval:
@@ -796,11 +796,7 @@ class Eval:
                 return cmp_num(e[1], a, b)
             if ty == "f":
                 return cmp_flt(e[1], float(a), float(b))
-            u = str_compare(a, b)
-            sg = str_compare(bytes((c + 128) & 255 for c in a), bytes((c + 128) & 255 for c in b))   # order of signed chars
-            if cmp_num(e[1], u, 0) != cmp_num(e[1], sg, 0):
-                self.events.add("str_signed_cmp")
-            return cmp_num(e[1], sg if "str_signed_cmp" in self.q else u, 0)
+            return cmp_num(e[1], str_compare(a, b), 0)      # unsigned byte order (F57, the signed-char order, is repaired: its return is a violation)
         if h == "sop":
             a, b = self.ev(e[2], vars_, cur), self.ev(e[3], vars_, cur)
             self.stat("OP_" + e[1].upper(), a, b)
